@@ -66,7 +66,19 @@ func (e *Enc) specCtx(fc *fctx, st *State, guard string) *specCtx {
 		}
 	}
 	// current values of named locals (incl. spilled params)
-	for name, a := range fc.namedLoc {
+	for name, cands := range fc.namedLoc {
+		// several locals may share a name (switch cases, nested scopes): take the one most recently
+		// allocated on this path
+		var a *ssa.Alloc
+		best := -1
+		for _, c := range cands {
+			if n, ok := st.seen[c]; ok && n > best {
+				a, best = c, n
+			}
+		}
+		if a == nil {
+			continue
+		}
 		et := a.Type().(*types.Pointer).Elem()
 		if !a.Heap {
 			if t, ok := st.loc[a]; ok {
@@ -546,6 +558,24 @@ func (sc *specCtx) bin(n *SBin) SV {
 	return sc.fail("operator %s not supported on %s in %s", n.Op, a.Ty, sexprString(n))
 }
 
+// heapFact: a pointer/slice/map value read from the heap by a contract expression refers to
+// allocated storage (Go memory safety) -- the same fact the encoder assumes when code loads it.
+func (sc *specCtx) heapFact(t string, ty types.Type) {
+	if sc.guard == "" || sc.inOld || strings.Contains(t, "q_") {
+		return
+	}
+	switch ty.Underlying().(type) {
+	case *types.Pointer, *types.Map, *types.Slice:
+		if f := sc.e.typeAssume(sc.st, t, ty); f != "true" {
+			key := "hf|" + sc.guard + "|" + t
+			if !sc.e.tinvSeen[key] {
+				sc.e.tinvSeen[key] = true
+				sc.e.assume(sc.guard, f)
+			}
+		}
+	}
+}
+
 func (sc *specCtx) sel(n *SSel) SV {
 	e := sc.e
 	v := sc.val(n.X)
@@ -570,7 +600,9 @@ func (sc *specCtx) sel(n *SSel) SV {
 				return SV{Addr: fmt.Sprintf("(Fld %s %d)", v.Addr, i), Ty: ft}
 			}
 			an, as := e.fieldArr(si, i)
-			return SV{T: fmt.Sprintf("(select %s %s)", e.heapGet(sc.cur(), an, as), v.Addr), Ty: ft}
+			t := fmt.Sprintf("(select %s %s)", e.heapGet(sc.cur(), an, as), v.Addr)
+			sc.heapFact(t, ft)
+			return SV{T: t, Ty: ft}
 		}
 		return SV{T: fmt.Sprintf("(%s %s)", fieldCtor(si, i), v.T), Ty: ft}
 	}
@@ -719,6 +751,9 @@ func (sc *specCtx) call(n *SCall) SV {
 		if sc.old == nil {
 			return sc.fail("fresh() needs an old state")
 		}
+		if sc.sortOf(v.Ty) == "Slice" {
+			return SV{T: fmt.Sprintf("(>= (rootid (sl_base %s)) %s)", sc.mat(v), e.ghostGet(sc.old, "$alloc")), Ty: boolT}
+		}
 		return SV{T: fmt.Sprintf("(>= (rootid %s) %s)", sc.mat(v), e.ghostGet(sc.old, "$alloc")), Ty: boolT}
 	case "allocated":
 		v := arg(0)
@@ -745,6 +780,10 @@ func (sc *specCtx) call(n *SCall) SV {
 			return SV{T: fmt.Sprintf("(srune %s)", sc.mat(v)), Ty: types.Typ[types.String]}
 		}
 		return v
+	case "same":
+		// same(a, b): identical values (for float64: bitwise-level identity incl. NaN, unlike ==)
+		a, b := sc.unify(arg(0), arg(1))
+		return SV{T: fmt.Sprintf("(= %s %s)", sc.mat(a), sc.mat(b)), Ty: boolT}
 	case "isNaN":
 		return SV{T: fmt.Sprintf("(fp.isNaN %s)", sc.mat(arg(0))), Ty: boolT}
 	case "smt":
